@@ -3570,8 +3570,10 @@ class SetInstance(object):
             except:
                 for undo_func in reversed(undo_funcs): undo_func()
                 raise
+        if setdata.count is not None:
+            # for one-to-many the reverse side has already removed the items (and adjusted the count)
+            setdata.count -= len(items & setdata)
         setdata -= items
-        if setdata.count is not None: setdata.count -= len(items)
         added = setdata.added
         removed = setdata.removed
         if added: (items, setdata.added) = (items - added, added - items)
